@@ -172,10 +172,17 @@ they are compared numerically by the harness, not modelled. -/
 /-- `2 * s`, element by element -/
 def double [Add K] (s : List K) : List K := s.map fun x => x + x
 
+/-- a read-out that evaluates the `surface` property once and post-processes the array with `g`
+(`opd`: `g = double`; `phase_for(λ)`: `g s = 2 s · 2π/λ`; `forward`/`backward`:
+`g s = E · exp(±2ik s)`) -/
+def readOut {β : Type} [Zero K] [Add K] [Mul K] [DecidableEq K] (g : List K → β) (m : Mirror K) :
+    Mirror K × β :=
+  let r := read m
+  (r.1, g r.2)
+
 /-- the `opd` property of the cached mirror -/
 def readOpd [Zero K] [Add K] [Mul K] [DecidableEq K] (m : Mirror K) : Mirror K × List K :=
-  let r := read m
-  (r.1, double r.2)
+  readOut double m
 
 /-- what the optical path difference has to be: `2 · IF · actuators`, no cache involved -/
 def Spec.opd [Zero K] [Add K] [Mul K] (s : Spec K) : List K := double (matvec s.infl s.acts)
